@@ -276,13 +276,25 @@ def _caches():
 
 
 def reset_caches():
-    """cold start: forget everything the lookup module has cached (the caches are plain module-level dicts; any
-    other dict-valued module attribute whose name ends in 'cache' is cleared as well, so a renamed or added cache is covered)"""
-    L = libif.lib()
-    for name in dir(L.lookup):
-        v = getattr(L.lookup, name)
-        if isinstance(v, dict) and name.lower().endswith("cache"):
-            v.clear()
+    """cold start: forget everything the library has cached at module level.  Every dict-valued module attribute whose name
+    ends in 'cache' in any htstabilizer module is cleared, and cache_clear() is called on functools caches, so a renamed or
+    newly added cache is covered as well."""
+    import sys as _sys
+    for modname, mod in list(_sys.modules.items()):
+        if not (modname == "htstabilizer" or modname.startswith("htstabilizer.")) or mod is None:
+            continue
+        for name in dir(mod):
+            try:
+                v = getattr(mod, name)
+            except Exception:  # noqa: BLE001
+                continue
+            if isinstance(v, dict) and name.lower().endswith("cache"):
+                v.clear()
+            elif callable(v) and hasattr(v, "cache_clear") and getattr(v, "__module__", "").startswith("htstabilizer"):
+                try:
+                    v.cache_clear()
+                except Exception:  # noqa: BLE001
+                    pass
 
 
 def flush(which):
